@@ -1,5 +1,5 @@
 (* Properties/C16.v — Every partition is placed on min(R, N) distinct member nodes, independently. *)
-From Verif Require Import Base.Prelude Cluster.Placement Cluster.PlacementProofs Generated.Facts.
+From Verif Require Import Base.Prelude Cluster.Placement Cluster.PlacementProofs Cluster.Translated Generated.Translated Generated.Facts.
 
 Definition copies_now : bool := match placement_copies with Known b => b | Unrecognised _ => false end.
 Lemma C16_facts_ok : placement_copies = Known true /\ placement_shuffle_per_partition = Known true /\
@@ -11,6 +11,12 @@ Proof. repeat split; reflexivity. Qed.
 Theorem C16_valid : forall members p r draws, NoDup members ->
   Forall (valid members r) (place copies_now p r draws members) /\ length (place copies_now p r draws members) = p.
 Proof. exact place_copy_valid. Qed.
+
+(* the replica count as TRANSLATED from storage/allocator.go on this run is min(members, replication factor) - the
+   length of the prefix the model takes *)
+Theorem C16_replica_count_translated : forall n r : nat, (Z.of_nat n <= MaxIntVal)%Z -> (Z.of_nat r <= MaxIntVal)%Z ->
+  go_placement_n (Z.of_nat n) (Z.of_nat r) = Z.of_nat (Nat.min n r).
+Proof. exact go_placement_n_is_model. Qed.
 
 (* independence: every tuple of valid per-partition orders is produced by some draw sequence *)
 Theorem C16_independent : forall members r targets, NoDup members -> members <> [] ->
@@ -44,5 +50,6 @@ Qed.
 
 Print Assumptions C16_valid.
 Print Assumptions C16_independent.
+Print Assumptions C16_replica_count_translated.
 Print Assumptions C16_uniform.
 Print Assumptions C16_alias_refuted.
